@@ -2,3 +2,4 @@ import DTML.Basic
 import DTML.Gen
 import DTML.Batch
 import DTML.Props.C11
+import DTML.Props.C12
